@@ -152,13 +152,20 @@ theorem extendGroup_complete {byCore m e : List Proto} (h : extendGroup none byC
     · intro q hq; exact hv q (List.mem_of_mem_drop hq)
 
 
-/-- linear records: every hybrid group is a sharing class plus **exactly** the protoclusters that
-    share with nobody and whose core lies inside the class's connected core -/
-theorem findHybrids_complete_linear {clusters : List Proto} {hg : List (List Proto)} {un : List Proto}
-    (h : findHybrids clusters none = .ok (hg, un)) (hn : clusters.Nodup) (hv : ∀ p, p ∈ clusters → ValidCore p) :
+/-- every hybrid group is a sharing class plus **exactly** the protoclusters that share with nobody
+    and whose core lies inside the class's connected core — for any record on which the containment
+    scan of one group (`extendGroup`) is complete (`hX`; shown below for linear records and in
+    `RingHybrid.lean` for circular ones) -/
+theorem findHybrids_complete_gen {clusters : List Proto} {wrap : Option Int} {hg : List (List Proto)} {un : List Proto}
+    (h : findHybrids clusters wrap = .ok (hg, un)) (hn : clusters.Nodup)
+    (hX : ∀ (byCore m e : List Proto), extendGroup wrap byCore m = .ok e → m ≠ [] → (∀ x, x ∈ m → x ∈ clusters) →
+      SortedBy (fun p : Proto => p.core.start) byCore →
+      (∀ q, q ∈ byCore → q ∈ clusters ∧ ∀ z, z ∈ clusters → z ≠ q → shares q z = false) →
+      ∃ core, connect (m.map (·.core)) wrap = .ok core ∧
+        ∀ p, p ∈ byCore → locationContainsOther core p.core = true → p ∈ e) :
     ∀ g, g ∈ hg → ∃ (m : List Proto) (core : Loc), (∀ x, x ∈ m → x ∈ g) ∧ 2 ≤ m.length ∧
         (∀ a b, a ∈ m → b ∈ m → Linked (shareGroups clusters) a b) ∧
-        connect (m.map (·.core)) none = .ok core ∧
+        connect (m.map (·.core)) wrap = .ok core ∧
         ∀ p, p ∈ clusters → (∀ q, q ∈ clusters → q ≠ p → shares p q = false) →
           (p ∈ g ↔ locationContainsOther core p.core = true) := by
   have hcl := findHybrids_classes h hn
@@ -215,10 +222,26 @@ theorem findHybrids_complete_linear {clusters : List Proto} {hg : List (List Pro
         intro e0; have := hmwf.2; rw [e0] at this; simp at this
       have hbyCoreMem : ∀ q, q ∈ sortBy coreStartLt (List.filter (fun c => !groups.flatten.contains c) clusters) →
           q ∈ clusters := fun q hq => (List.mem_filter.1 ((mem_sortBy _ _ _).1 hq)).1
-      obtain ⟨core, hcore, hcomp⟩ := extendGroup_complete hme hmne
-        (fun x hx => by obtain ⟨r, hr, _⟩ := hv x (hmfrom x hx); exact ⟨r, hr⟩)
-        (sortBy_sorted (fun p : Proto => p.core.start) _)
-        (fun q hq => hv q (hbyCoreMem q hq))
+      -- what is left for the scan shares with nobody
+      have hbyCoreUn : ∀ q, q ∈ sortBy coreStartLt (List.filter (fun c => !groups.flatten.contains c) clusters) →
+          q ∈ clusters ∧ ∀ z, z ∈ clusters → z ≠ q → shares q z = false := by
+        intro q hq
+        obtain ⟨hqc, hqn⟩ := List.mem_filter.1 ((mem_sortBy _ _ _).1 hq)
+        have hqn' : q ∉ groups.flatten := by simpa using hqn
+        refine ⟨hqc, ?_⟩
+        intro z hz hzq
+        by_cases hs : shares q z = true
+        · exfalso
+          apply hqn'
+          have hqz : q ≠ z := fun e => hzq e.symm
+          rw [← hgroups]
+          rcases before_total ((hsm q).2 hqc) ((hsm z).2 hz) hqz with h1 | h1
+          · exact List.mem_flatten.2 ⟨[q, z], List.mem_append.2 (Or.inl ((mem_pairsWhere _ _ _ _).2 ⟨q, z, h1, hs, rfl⟩)), by simp⟩
+          · exact List.mem_flatten.2 ⟨[z, q], List.mem_append.2 (Or.inl ((mem_pairsWhere _ _ _ _).2
+              ⟨z, q, h1, by rw [shares_comm]; exact hs, rfl⟩)), by simp⟩
+        · simpa using hs
+      obtain ⟨core, hcore, hcomp⟩ := hX _ m e hme hmne hmfrom
+        (sortBy_sorted (fun p : Proto => p.core.start) _) hbyCoreUn
       obtain ⟨core', hcore', hfrom⟩ := extendGroup_from' hme
       have hcc : core' = core := by rw [hcore] at hcore'; injection hcore' with e0; exact e0.symm
       subst hcc
@@ -263,5 +286,19 @@ theorem findHybrids_complete_linear {clusters : List Proto} {hg : List (List Pro
         · exact h2
       · intro hcont
         exact mem_sortProtos.2 (hcomp p hpby hcont)
+
+/-- linear records -/
+theorem findHybrids_complete_linear {clusters : List Proto} {hg : List (List Proto)} {un : List Proto}
+    (h : findHybrids clusters none = .ok (hg, un)) (hn : clusters.Nodup) (hv : ∀ p, p ∈ clusters → ValidCore p) :
+    ∀ g, g ∈ hg → ∃ (m : List Proto) (core : Loc), (∀ x, x ∈ m → x ∈ g) ∧ 2 ≤ m.length ∧
+        (∀ a b, a ∈ m → b ∈ m → Linked (shareGroups clusters) a b) ∧
+        connect (m.map (·.core)) none = .ok core ∧
+        ∀ p, p ∈ clusters → (∀ q, q ∈ clusters → q ≠ p → shares p q = false) →
+          (p ∈ g ↔ locationContainsOther core p.core = true) := by
+  apply findHybrids_complete_gen h hn
+  intro byCore m e hme hmne hmfrom hs hby
+  exact extendGroup_complete hme hmne
+    (fun x hx => by obtain ⟨r, hr, _⟩ := hv x (hmfrom x hx); exact ⟨r, hr⟩) hs
+    (fun q hq => hv q (hby q hq).1)
 
 end ASV.CC
